@@ -48,6 +48,7 @@ def locations(level):
             L.append(("keccak2", k, s))
     # nested mapping m[k1][k2]
     L.append(("keccak2", Y, ("keccak2", X, K1)))
+    L.append(("keccak2", K2, ("keccak2", K1, K1)))  # every key concrete: the inner hash is a constant inside a constant preimage
     if full:
         L.append(("keccak2", K1, ("keccak2", X, K1)))
         L.append(("keccak2", X, ("keccak2", K1, K1)))
